@@ -81,6 +81,11 @@ def random_install(rng, gen, n_acs=None, n_zones=None, fmt=None):
         for z in numbers:
             blocks[rng.randrange(n_acs)].append(z)
     zones = {z: (rng.choice(NAMES)[:6] + (str(z) if rng.random() < 0.5 else ""))[:8] for z in numbers}
+    if gen == 5 and rng.random() < 0.2:
+        # AirTouch 5 names are length-prefixed (up to 255 bytes): a household that types descriptive names makes the zone-names answer
+        # longer than 256 bytes once there are a dozen zones
+        stem = rng.choice(["Upstairs master bedroom ", "Ground floor living room ", "Küche und Esszimmer ", "\ufeffNorth wing guest suite ", "x" * 40 + " "])
+        zones = {z: stem + str(z) for z in numbers}
     for z in numbers:
         # legal on the wire and seen on real consoles: a zone whose name was never set (blank), or one character
         r = rng.random()
